@@ -5,7 +5,7 @@ from lv import core, model, drive, recgen, canon, ref
 from lv.props import common
 
 ID = 'C03'
-BUDGET = {'quick': 260, 'thorough': 6000}
+BUDGET = {'quick': 400, 'thorough': 8000}
 RULE = ('recursive programs over graphs of <= 6 nodes (chains, cycles, trees, random): '
         'self recursion (linear / non-linear closure, counters, multiset recursion), '
         'mutual recursion in rings (cut by the root) and dense components (not cut), '
@@ -131,9 +131,10 @@ def shard(ctx, col):
     drive.enable_library_cache()
 
     def one(rng):
-        deep_p = 0.04 if ctx.tier == 'quick' else 0.2
+        deep_p = 0.12 if ctx.tier == 'quick' else 0.25
         deep = rng.random() < deep_p
-        prog = recgen.gen_rec(rng, allow_deep=deep, deep_only=deep)
+        mid = rng.random() < (0.1 if ctx.tier == 'quick' else 0.2)     # depths 12, 19, 20 too
+        prog = recgen.gen_rec(rng, allow_deep=deep or mid, deep_only=deep)
         text = model.print_program(prog)
         for l in prog['labels']:
             col.label(l)
